@@ -2,7 +2,8 @@
 import os, struct, subprocess, time, math
 from fractions import Fraction
 
-WORK = '/verif/.work'
+VERIF = os.path.dirname(os.path.dirname(os.path.abspath(__file__)))
+WORK = os.path.join(VERIF, '.work')
 _built = {}
 
 
@@ -12,11 +13,11 @@ def build(profile='dev'):
     tdir = os.path.join(WORK, 'replay_target')
     env = dict(os.environ, CARGO_NET_OFFLINE='true', CARGO_TARGET_DIR=tdir)
     cmd = ['cargo', 'build', '--offline', '--quiet'] + (['--release'] if profile == 'release' else [])
-    lock = '/verif/replay/Cargo.lock'
+    lock = os.path.join(VERIF, 'replay', 'Cargo.lock')
     if not os.path.exists(lock) and os.path.exists('/repo/Cargo.lock'):
         import shutil; shutil.copy('/repo/Cargo.lock', lock)
     t0 = time.time()
-    p = subprocess.run(cmd, cwd='/verif/replay', env=env, capture_output=True, text=True)
+    p = subprocess.run(cmd, cwd=os.path.join(VERIF, 'replay'), env=env, capture_output=True, text=True)
     if p.returncode != 0:
         raise RuntimeError('replay build failed:\n' + p.stderr[-4000:])
     path = os.path.join(tdir, 'release' if profile == 'release' else 'debug', 'ta_replay')
